@@ -13,10 +13,10 @@ Proof.
 Qed.
 
 Definition io_env (a : act) (e : env) : env :=
-  {| e_acts := a :: e_acts e; e_disk := apply_act (e_disk e) a; e_fault := None; e_m := e_m e |}.
+  {| e_acts := a :: e_acts e; e_disk := apply_act (e_disk e) a; e_fault := None; e_fx := e_fx e; e_m := e_m e |}.
 
 Lemma io_ok a e : e_fault e = None -> io a e = (true, io_env a e).
-Proof. intros Hf. unfold io, io_env. rewrite Hf. destruct (is_delete a); reflexivity. Qed.
+Proof. intros Hf. unfold io, io_env, armed. rewrite Hf. destruct (is_delete a); reflexivity. Qed.
 
 Lemma firstn_snoc {A} j (l : list A) x :
   firstn j (l ++ [x]) = if Nat.leb j (length l) then firstn j l else l ++ [x].
